@@ -856,6 +856,17 @@ class PipeOps(FullOps):
                 if len(ps) == 1 and ps[0] in getattr(self, "psums", {}) and b.elem.poly == Poly.sym(ps[0]) + self.psums[ps[0]]:
                     cur = Poly.sym(ps[0])
             return ListV(items=None, elem=b.elem.but(note="prefix-sum-cur", poly=cur), kind=a.kind, order=(order_src(b.order), b.order[1][:-5]))
+        if isinstance(a, ListV) and isinstance(b, ListV) and a.items is not None and len(a.items) == 1 and self.const_int(a.items[0]) == 0 \
+                and b.items is None and b.order is not None and not b.order[1].endswith("[:-1]") and isinstance(b.elem, TV) and b.elem.note == "prefix-sum-next":
+            # [0, *accumulate(xs)]  /  [0] + list(accumulate(xs)): what accumulate(xs, initial=0) yields — the i-th item is the sum before xs[i],
+            # one more item (the total) closes the list
+            cur = None
+            if b.elem.poly is not None:
+                ps = [x for x in b.elem.poly.symbols() if x.startswith("psum[")]
+                if len(ps) == 1 and ps[0] in getattr(self, "psums", {}) and b.elem.poly == Poly.sym(ps[0]) + self.psums[ps[0]]:
+                    cur = Poly.sym(ps[0])
+            if cur is not None:
+                return ListV(items=None, elem=b.elem.but(note="prefix-sum-cur", poly=cur), kind=a.kind, order=b.order)
         def literal_keys(x):
             return isinstance(x, ListV) and x.items is not None and x.items and all(isinstance(i, TV) and i.note == "key" for i in x.items)
 
@@ -1140,7 +1151,7 @@ class PipeOps(FullOps):
         if name == "numel" and lst.kind == "tuple" and lst.items is None:
             src = str(lst.order[0][0])[6:] if lst.order and lst.order[0] else "?"
             return TV(kind="pyint", note="numel", poly=Poly.sym(f"numel[{src}]"))
-        if name == "append" and self.interp.join_depth > 0:
+        if name == "append" and self.interp.join_depth > 0 and not (lst.items is not None and lst.born is not None and lst.born == tuple(self.interp.open_lids)):
             e = lst.elem if lst.items is None else (join_all(lst.items) if lst.items else None)
             lo = self.current_loop_order(env)
             if lst.items is not None and len(lst.items) == 0:
